@@ -66,15 +66,30 @@ def join(parts: list) -> str:
 
 
 def merge(a: str, b: str) -> str:
-	"""Join of two descriptions (wildcards give way)."""
+	"""Join of two descriptions (wildcards give way). Two values of one class whose arguments disagree stay two alternatives
+	(list<int> and list<float> join to list<int>|list<float>, not to list<int|float>: no single value was a mixed list)."""
 	if a == b or b == '*':
 		return a
 	if a == '*':
 		return b
+	alts_a, alts_b = top_level_alternatives(a), top_level_alternatives(b)
+	if len(alts_a) > 1 or len(alts_b) > 1:
+		out = list(alts_a)
+		for y in alts_b:
+			for i, x in enumerate(out):
+				m = merge(x, y)
+				if len(top_level_alternatives(m)) == 1:
+					out[i] = m
+					break
+			else:
+				out.append(y)
+		return '|'.join(out)
 	ha, ia = split(a)
 	hb, ib = split(b)
 	if ha == hb and len(ia) == len(ib):
-		return ha + ('<' + ', '.join(merge(x, y) for x, y in zip(ia, ib)) + '>' if ia else '')
+		args = [merge(x, y) for x, y in zip(ia, ib)]
+		if all(len(top_level_alternatives(m)) <= max(len(top_level_alternatives(x)), len(top_level_alternatives(y))) for m, x, y in zip(args, ia, ib)):
+			return ha + ('<' + ', '.join(args) + '>' if ia else '')
 	return f'{a}|{b}'
 
 
